@@ -47,8 +47,8 @@ def _payload(r, t=None):
         return {'type': t, 'proto': r.choice([0, 1, 2, 3]), 'ntype': r.choice([1, 7, 14, 17, 24, 38, 43, 44, 16390, 16391, 16393, 40000]),
                 'spi': _rand_bytes(r, r.choice([0, 0, 4, 8])), 'data': _rand_bytes(r, r.choice([0, 2, 32, 5]))}
     if t == R.P_DELETE:
-        n = r.choice([0, 1, 2, 5])
         ss = r.choice([0, 4, 8])
+        n = r.choice([0, 1, 2, 5]) if ss else 0          # SPI size 0 (IKE_SA delete) carries no SPIs
         return {'type': t, 'proto': r.choice([1, 2, 3]), 'spi_size': ss, 'spis': [_rand_bytes(r, ss) for _ in range(n)]}
     if t == R.P_VENDOR:
         return {'type': t, 'data': r.choice([b'strongSwan', _rand_bytes(r, 16), b'\xff\xfe\x80', b''])}
